@@ -37,7 +37,7 @@ fn dump(t: &Unifiable) -> String {
         Unifiable::Nil => "N".to_string(),
         Unifiable::Anonymous => "_".to_string(),
         Unifiable::Atom(s) => format!("A{}", quote(s)),
-        Unifiable::SFloat(f) => format!("F{:016x}", f.to_bits()),
+        Unifiable::SFloat(f) => if f.is_nan() { "Fnan".to_string() } else { format!("F{:016x}", f.to_bits()) },
         Unifiable::SInteger(i) => format!("I{}", i),
         Unifiable::LogicVar{id, name} => format!("V{}{}", id, quote(name)),
         Unifiable::SComplex(ts) => format!("C({})", ts.iter().map(dump).collect::<Vec<_>>().join(",")),
